@@ -32,6 +32,7 @@ def consts_for_tlc(c):
         Acts=set(c["acts"]),
         FailSets=[set(tuple(x) for x in fs) for fs in c.get("fail_sets", [[]])],
         LogSevs=set(c.get("log_sevs", [])),
+        Tokens=set(c.get("tokens", [])), EPs=set(c.get("eps", [])), MsgClasses=set(c.get("msg_classes", [])),
     )
 
 
@@ -49,7 +50,19 @@ def label_to_event(label):
         return dict(op="SetDefault", l=a[0], k="", a=0, b=0)
     if name == "LogF":
         return dict(op="LogF", l=a[0], k="", a=a[1], b=a[2])
+    if name == "LogA":
+        return dict(op="LogA", l=a[0], k=a[1], a=a[2], b=0, mc=a[3], args=parse_tuple(a[4]))
     raise Undecided("unknown action label %r" % label)
+
+
+def parse_tuple(t):
+    """'<<"key", "int">>' -> ['key', 'int']"""
+    import json as _j
+    from vlib import split_args
+    t = t.strip()
+    assert t.startswith("<<") and t.endswith(">>"), t
+    inner = t[2:-2].strip()
+    return [_j.loads(x.strip()) if x.strip().startswith('"') else int(x) for x in split_args(inner)] if inner else []
 
 
 def random_behaviours(c, rng, count, depth, max_loggers):
@@ -90,6 +103,17 @@ def random_behaviours(c, rng, count, depth, max_loggers):
                 beh.append(dict(op="PkgSetLevel", l=0, k="", a=a, b=0))
             elif op == "SetDefault":
                 beh.append(dict(op="SetDefault", l=l, k="", a=0, b=0))
+            elif op == "LogA":
+                ep = rng.choice(sorted(c["eps"]))
+                r_ = 8 if "Println" in ep else rng.choice(sorted(c["log_sevs"]))
+                if ep.startswith("pkg") and r_ == 7:
+                    r_ = 8          # no package-level function carries Off
+                n_ = rng.randint(0, c.get("rand_max_args", 8))
+                if rng.random() < 0.3:
+                    beh.append(dict(op="LogA", l=l, k=ep, a=r_, b=0, mc=rng.choice(sorted(c["msg_classes"])), args=[]))
+                else:
+                    beh.append(dict(op="LogA", l=l, k=ep, a=r_, b=0, mc="plain",
+                                    args=[rng.choice(sorted(c["tokens"])) for _ in range(n_)]))
             elif op == "LogF":
                 beh.append(dict(op="LogF", l=l, k="", a=rng.choice(sorted(c["log_sevs"])),
                                 b=rng.randint(1, len(c["fail_sets"]))))
@@ -112,7 +136,8 @@ def mc_only(ctx, c, invariants, properties, name="core-mc-only", timeout=1500):
     mc, cfg = gen_mc("MCB", "LoggCore", tc,
                      ["INIT Init", "NEXT Next", "CHECK_DEADLOCK FALSE", "INVARIANTS " + " ".join(invariants)] +
                      (["PROPERTIES " + " ".join(properties)] if properties else []),
-                     plain=dict(MaxLoggers=c["max_loggers"], InitLevel=c["init_level"], MaxList=c.get("max_list", 2)))
+                     plain=dict(MaxLoggers=c["max_loggers"], InitLevel=c["init_level"], MaxList=c.get("max_list", 2),
+                                MaxArgs=c.get("max_args", 0)))
     return ctx.model_check("MCB", "MCB.cfg", files={"MCB.tla": mc, "MCB.cfg": cfg}, name=name, timeout=timeout)
 
 
@@ -124,7 +149,8 @@ def run_core(ctx, c, invariants, properties, obs, rand_count, rand_depth, rand_l
                      ["INIT Init", "NEXT Next", "ALIAS DumpAlias", "CHECK_DEADLOCK FALSE",
                       "INVARIANTS " + " ".join(invariants)] +
                      (["PROPERTIES " + " ".join(properties)] if properties else []),
-                     plain=dict(MaxLoggers=c["max_loggers"], InitLevel=c["init_level"], MaxList=c.get("max_list", 2)))
+                     plain=dict(MaxLoggers=c["max_loggers"], InitLevel=c["init_level"], MaxList=c.get("max_list", 2),
+                                MaxArgs=c.get("max_args", 0)))
     dot = os.path.join(ctx.scratch, "graph")
     r = ctx.model_check("MC", "MC.cfg", files={"MC.tla": mc, "MC.cfg": cfg},
                         extra=["-dump", "dot,actionlabels", dot] if dump else [], name="core-mc" + tag)
@@ -149,7 +175,7 @@ def run_core(ctx, c, invariants, properties, obs, rand_count, rand_depth, rand_l
         for key in ("bool_lists", "layouts", "opt_lists"):
             assert rc[key][:len(c[key])] == c[key], key
     behaviours += random_behaviours(rc, rng, rand_count, rand_depth, rand_loggers)
-    script = dict(init_level=c["init_level"], obs=obs, probe_sevs=rc.get("probe_sevs", [4]),
+    script = dict(seed=ctx.seed, init_level=c["init_level"], obs=obs, probe_sevs=rc.get("probe_sevs", [4]),
                   gate_sevs=rc.get("gate_sevs", []), names=sorted(rc["names"]), bool_lists=rc["bool_lists"],
                   layouts=rc["layouts"], opt_lists=rc["opt_lists"], customs=rc.get("customs", []),
                   fail_sets=rc.get("fail_sets", [[]]), behaviours=behaviours)
@@ -167,7 +193,7 @@ def run_core(ctx, c, invariants, properties, obs, rand_count, rand_depth, rand_l
     nontrivial = set()
     for r_ in rows:
         if r_["op"] != "Reset":
-            nontrivial.add((r_["op"], r_["k"], r_["a"], r_["b"], r_["l"]))
+            nontrivial.add((r_["op"], r_["k"], r_["a"], r_["b"], r_["l"], r_.get("mc", ""), tuple(r_.get("args", []))))
     ctx.evaluations += len(rows) - len(starts)
     ctx.traces += len(starts)
     ctx.nontrivial += len(nontrivial)
@@ -254,7 +280,7 @@ def validate_core_trace(ctx, c, trace_path, max_loggers, name="core-trace"):
     tc["TraceFile"] = "trace.ndjson"
     mct, cfg = gen_mc("MCT", "LoggCoreTrace", tc,
                       ["SPECIFICATION TSpec", "INVARIANTS Done TOneFormat TTreeOK", "CHECK_DEADLOCK FALSE"],
-                      plain=dict(MaxLoggers=max(max_loggers, c["max_loggers"]) + 64, InitLevel=c["init_level"], MaxList=1000))
+                      plain=dict(MaxLoggers=max(max_loggers, c["max_loggers"]) + 64, InitLevel=c["init_level"], MaxList=1000, MaxArgs=0))
     r = ctx.tlc("MCT", "MCT.cfg", files={"MCT.tla": mct, "MCT.cfg": cfg}, copy={trace_path: "trace.ndjson"},
                 workers=1, name=name, timeout=3000, heap="12g", allow_fail=True)
     if r.invariant_violated:
